@@ -571,7 +571,8 @@ func (mw *TinkEncryptionPartStoreMiddleware) GetPart(ctx context.Context, tx dat
 		}
 
 		// Create a decrypting reader for the remaining data
-		decryptReader, err := dekStreamingAEAD.NewDecryptingReader(rc, partId.Bytes())
+		ciphertext := &countingReader{r: rc}
+		decryptReader, err := dekStreamingAEAD.NewDecryptingReader(ciphertext, partId.Bytes())
 		if err != nil {
 			closeUnderlying()
 			if err == io.EOF {
@@ -580,6 +581,7 @@ func (mw *TinkEncryptionPartStoreMiddleware) GetPart(ctx context.Context, tx dat
 			}
 			return nil, err
 		}
+		decryptReader = &truncationCheckingReader{Reader: decryptReader, ciphertext: ciphertext, segmentSize: int64(segmentSize)}
 
 		// Return a composite reader that wraps the decrypt reader with the underlying closer
 		return &compositeReadCloser{decryptReader, closerFunc(closeUnderlying)}, nil
@@ -652,6 +654,46 @@ func (mw *TinkEncryptionPartStoreMiddleware) readPartHeaderAndDEK(rc io.Reader, 
 	}
 
 	return finalDEK, segmentSize, int64(4 + headerLen), nil
+}
+
+// countingReader counts the bytes read through it.
+type countingReader struct {
+	r io.Reader
+	n int64
+}
+
+func (c *countingReader) Read(p []byte) (int, error) {
+	n, err := c.r.Read(p)
+	c.n += int64(n)
+	return n, err
+}
+
+// truncationCheckingReader wraps tink-go's sequential decrypting reader.
+// That reader authenticates the end of the stream through the last-segment
+// flag of the final segment, but it returns a clean io.EOF without having seen
+// a final segment whenever the ciphertext ends exactly where it starts to read
+// a segment: right after the stream header, or one byte (its look-ahead byte)
+// after a full segment. No complete stream has such a length, its final
+// segment holds at least the tag, so these ends are reported as truncation.
+type truncationCheckingReader struct {
+	io.Reader
+	ciphertext  *countingReader // what the wrapped reader consumes, from the tink stream header on
+	segmentSize int64
+}
+
+func (t *truncationCheckingReader) Read(p []byte) (int, error) {
+	n, err := t.Reader.Read(p)
+	if err == io.EOF {
+		tinkHeaderLen := int64(1 + tinkKeySize + tinkNoncePrefixSize)
+		lastSegmentLen := t.ciphertext.n - tinkHeaderLen
+		if t.ciphertext.n > t.segmentSize {
+			lastSegmentLen = (t.ciphertext.n-1)%t.segmentSize + 1
+		}
+		if lastSegmentLen < tinkTagSize {
+			err = io.ErrUnexpectedEOF
+		}
+	}
+	return n, err
 }
 
 // compositeReadSeekCloser combines a ReadSeeker with a Closer.
